@@ -1930,8 +1930,9 @@ func (db *DatabaseCollectionWithUser) getResyncedDocument(ctx context.Context, d
 			roles = nil
 			channels = nil
 		}
-		if rev.ID != doc.GetRevTreeID() && !rev.Channels.Equals(channels) {
-			// a conflicting leaf changed channels: rewrite the document even if the winner is unchanged
+		if !rev.Channels.Equals(channels) && (rev.ID != doc.GetRevTreeID() || len(rev.Channels) > 0) {
+			// a conflicting leaf changed channels, or the winner still carries the revision-tree entry of its time
+			// as a conflicting leaf: rewrite the document even if the winner's document-level channels are unchanged
 			forceUpdate = true
 		}
 		rev.Channels = channels
